@@ -1,5 +1,8 @@
 import Mathlib.MeasureTheory.Measure.Haar.InnerProductSpace
 import Flowjaxv.Proofs.MassLeaves
+import Flowjaxv.Proofs.NetMass
+import Flowjaxv.Proofs.Params
+import Flowjaxv.Proofs.Planar
 /-!
 # C04 — exp(log_prob) integrates to one, and samples are distributed according to that density
 
@@ -326,5 +329,92 @@ theorem stack_sample_law_instance :
   · exact Or.inr (leakytanh_layer (by norm_num) ())
   · exact Or.inl (Mass.affine_invJac _ (by norm_num) ())
   · exact Or.inr (rqs_layer Rqs.rqsWF_instance ())
+
+/-! ## ===== BEGIN 8. d dimensions, unconditional for the affine coupling architecture =====
+
+`Mass.InvJacN` DISCHARGED for `Coupling` with the generated `Affine` transformer (helpers in `Proofs/NetMass.lean`):
+the layer is the hand model `Masks.couplingBij d cnd tf` read in coordinates on `ℝⁿ = Fin n → ℝ`
+(`NetMass.liftBij`), `tf ps = Affine(loc ps, scale ps)` (`NetLogDet.affineFamily`; flowjax: `loc = ps[0]`,
+`scale = softplus(ps[1])`), for ANY conditioner function whose location / scale outputs are differentiable in the input
+(`NetLogDet.CondDiff`), any first-block size `d ≤ n`, any condition, any non-vanishing scale.  Lawfulness is C01
+`coupling_lawful`, the Jacobian determinant of the inverse pass is C02 `coupling_logdet` (block lower triangular).
+With the default `relu` conditioner `CondDiff` fails on the kinks (a null set): outside this theorem. -/
+section CouplingNd
+open Masks MasksPf
+
+/-- the affine coupling layer satisfies the d-dimensional layer hypothesis at every condition -/
+theorem coupling_affine_layer (d n : ℕ) (hdn : d ≤ n) (cnd : List ℝ → List ℝ) (loc scale : List ℝ → ℝ)
+    (hs : ∀ ps, scale ps ≠ 0) (c : List ℝ) (hc : NetLogDet.CondDiff d n cnd loc scale c) :
+    Mass.InvJacN (NetMass.liftBij n (couplingBij d cnd (NetLogDet.affineFamily loc scale))) c :=
+  NetMass.coupling_affine_invJacN d n cnd loc scale hdn hs c hc
+
+/-- **`flowNd_coupling_normalised`**: `Transformed(base, Coupling(Affine))` over a normalised base on `ℝⁿ` integrates
+to one — no Jacobian hypothesis left -/
+theorem flowNd_coupling_normalised {K : Type} (d n : ℕ) (hdn : d ≤ n) (cnd : List ℝ → List ℝ)
+    (loc scale : List ℝ → ℝ) (hs : ∀ ps, scale ps ≠ 0) (base : Distn (Fin n → ℝ) (List ℝ) K ℝ) (c : List ℝ)
+    (hc : NetLogDet.CondDiff d n cnd loc scale c)
+    (hbase : ∫ z, Real.exp (base.logProb z c) = 1) :
+    ∫ y, Real.exp ((Transformed.mk base
+      (NetMass.liftBij n (couplingBij d cnd (NetLogDet.affineFamily loc scale)))).toDist.logProb y c) = 1 := by
+  rw [Mass.transformed_mass volume _ c ((coupling_affine_layer d n hdn cnd loc scale hs c hc).massOK volume), hbase]
+
+/-- any depth: a stack of affine coupling layers (each with its own split, conditioner and parameter maps) over a
+normalised base integrates to one, and the law of `sample` has density `exp ∘ log_prob` -/
+theorem flowNd_coupling_stack_normalised {K : Type} (n : ℕ) (base : Distn (Fin n → ℝ) (List ℝ) K ℝ) (c : List ℝ)
+    (bs : List (Bij (Fin n → ℝ) (List ℝ) ℝ))
+    (hall : ∀ b ∈ bs, ∃ (d : ℕ) (cnd : List ℝ → List ℝ) (loc scale : List ℝ → ℝ), d ≤ n ∧ (∀ ps, scale ps ≠ 0) ∧
+      NetLogDet.CondDiff d n cnd loc scale c ∧
+      b = NetMass.liftBij n (couplingBij d cnd (NetLogDet.affineFamily loc scale)))
+    (hbase : ∫ z, Real.exp (base.logProb z c) = 1) :
+    ∫ y, Real.exp ((nestTransformed base bs).logProb y c) = 1 := by
+  refine flowNd_stack_normalised_of volume base c bs ?_ hbase
+  intro b hb
+  obtain ⟨d, cnd, loc, scale, hdn, hs, hc, rfl⟩ := hall b hb
+  exact coupling_affine_layer d n hdn cnd loc scale hs c hc
+
+theorem flowNd_coupling_stack_sample_law {K : Type} [MeasurableSpace K] (κ : Measure K) (n : ℕ)
+    (base : Distn (Fin n → ℝ) (List ℝ) K ℝ) (c : List ℝ) (bs : List (Bij (Fin n → ℝ) (List ℝ) ℝ))
+    (hall : ∀ b ∈ bs, ∃ (d : ℕ) (cnd : List ℝ → List ℝ) (loc scale : List ℝ → ℝ), d ≤ n ∧ (∀ ps, scale ps ≠ 0) ∧
+      NetLogDet.CondDiff d n cnd loc scale c ∧
+      b = NetMass.liftBij n (couplingBij d cnd (NetLogDet.affineFamily loc scale)))
+    (hs : Measurable fun k => base.sample k c)
+    (hbase : Measure.map (fun k => base.sample k c) κ
+      = volume.withDensity fun z => ENNReal.ofReal (Real.exp (base.logProb z c))) :
+    Measure.map (fun k => (nestTransformed base bs).sample k c) κ
+      = volume.withDensity fun y => ENNReal.ofReal (Real.exp ((nestTransformed base bs).logProb y c)) := by
+  refine flowNd_stack_sample_law_of volume κ base c bs ?_ hs hbase
+  intro b hb
+  obtain ⟨d, cnd, loc, scale, hdn, hs', hc, rfl⟩ := hall b hb
+  exact coupling_affine_layer d n hdn cnd loc scale hs' c hc
+
+/-- non-vacuity: on `ℝ²`, `d = 1`, the NON-LINEAR conditioner `l ↦ l.map (a ↦ a² + 1)`, location = first parameter,
+scale `2`: `(x₀, x₁) ↦ (x₀, 2x₁ + x₀² + 1)` satisfies every hypothesis, at every condition -/
+theorem coupling_affine_instance (c : List ℝ) :
+    Mass.InvJacN (NetMass.liftBij 2 (couplingBij 1 (fun l => l.map fun a => a * a + 1)
+      (NetLogDet.affineFamily (fun ps => ps.getD 0 0) (fun _ => 2)))) c := by
+  refine coupling_affine_layer 1 2 (by norm_num) _ _ _ (fun _ => by norm_num) c ?_
+  intro k hk
+  have hk0 : k = 0 := by omega
+  subst hk0
+  refine ⟨?_, differentiable_const _⟩
+  have e : (fun w : Fin 2 → ℝ => (NetLogDet.rowAt 1 2 (fun l => l.map fun a => a * a + 1) c w 0).getD 0 0)
+      = fun w => w 0 * w 0 + 1 := by
+    funext w
+    simp [NetLogDet.rowAt, reshapeRows, List.ofFn_succ, List.range_succ]
+  rw [e]
+  fun_prop
+
+end CouplingNd
+/-! ## ===== END 8. ===== -/
+
+/-! ### Planar layers: the invertibility constraint that normalisation rests on -/
+
+/-- for every unconstrained `u`, non-zero `w` and leaky-relu slope `0 < s ≤ 1`, the generated planar layer
+(with the generated constraint `get_act_scale`) is a lawful bijection of ℝⁿ — the hypothesis `flowNd_normalised_of`
+needs from a planar layer; a broken constraint (`w·û ≤ −1`) folds space and the flow's mass is no longer 1 -/
+theorem planar_layer_invertible {C : Type} {n : ℕ} (p : UnconditionalPlanar ℝ) (hw : p.weight.length = n)
+    (hu : p._act_scale.length = n) (hne : Jnp.dot p.weight p.weight ≠ 0) {s : ℝ} (hs0 : 0 < s) (hs1 : s ≤ 1) :
+    (Planar.lreluBij p s : Bij (List ℝ) C ℝ).Lawful {x | x.length = n} {y | y.length = n} :=
+  PlanarPf.lrelu_lawful ⟨hw, hu, hne⟩ hs0 hs1
 
 end C04
